@@ -170,6 +170,18 @@ func (v Value) number() _number {
 	case int64:
 		num.int64 = value
 		return num
+	case uint:
+		// Like int64: exact when the integer fits (above 2^53 the detour
+		// through float64 below would round it).
+		if uint64(value) <= math.MaxInt64 {
+			num.int64 = int64(value)
+			return num
+		}
+	case uint64:
+		if value <= math.MaxInt64 {
+			num.int64 = int64(value)
+			return num
+		}
 	}
 
 	float := v.float64()
